@@ -128,6 +128,24 @@ type c29State struct {
 
 func (s *c29State) Close() error {
 	s.closes.Add(1)
+	// DELETE is documented to serialize with an in-flight call on the same session: its Close must not
+	// run underneath a handler that is still executing on this state. (Expiry, the reaper and shutdown
+	// may close under a running handler — that is the code's stated behaviour — and a handler may close
+	// its own session.)
+	if n := s.active.Load(); n > 0 && s.w != nil {
+		gid := c29Gid()
+		byDelete := -1
+		s.w.mu.Lock()
+		for _, t := range s.w.threads {
+			if t.gid == gid && t.isDelete {
+				byDelete = t.id
+			}
+		}
+		s.w.mu.Unlock()
+		if byDelete >= 0 {
+			s.w.oracle("close-during-handler", fmt.Sprintf("DELETE (thread %d) ran Close on session %s while %d call(s) were still inside their handler on it", byDelete, s.key, n))
+		}
+	}
 	return nil
 }
 
@@ -710,7 +728,23 @@ func c29GoState(gid string) string {
 }
 
 // wait until the thread is done, blocked in its handler, or parked on a lock
+// c29Leaked counts requests of earlier cases that never completed (only possible when a session lock
+// is never released). Their goroutines stay parked for the life of the process and make goroutine
+// dumps expensive, so from then on "parked on a lock" is decided by a short bounded wait instead.
+var c29Leaked atomic.Int32
+
 func (t *c29Thread) settle(w *c29World) {
+	if c29Leaked.Load() > 0 {
+		if t.atLock {
+			return
+		}
+		deadline := time.Now().Add(10 * time.Millisecond)
+		for t.getStatus() == "running" && time.Now().Before(deadline) {
+			time.Sleep(200 * time.Microsecond)
+		}
+		t.atLock = t.getStatus() == "running"
+		return
+	}
 	deadline := time.Now().Add(20 * time.Second)
 	parked := 0
 	if t.atLock {
@@ -882,7 +916,7 @@ func c29Exec(c *Case) {
 	defer func() {
 		// never leave a goroutine parked
 		for _, t := range w.threads {
-			for i := 0; i < 50 && t.getStatus() != "done"; i++ {
+			for i := 0; i < 5 && t.getStatus() != "done"; i++ {
 				t.mu.Lock()
 				if t.status == "blocked" {
 					close(t.release)
@@ -891,6 +925,9 @@ func c29Exec(c *Case) {
 				}
 				t.mu.Unlock()
 				time.Sleep(2 * time.Millisecond)
+			}
+			if t.getStatus() != "done" {
+				c29Leaked.Add(1)
 			}
 		}
 		c29Cur.Store(nil)
@@ -915,7 +952,7 @@ func c29Exec(c *Case) {
 	}
 	// end of case: release everything, then the final accounting
 	for _, t := range w.threads {
-		for i := 0; i < 20 && t.getStatus() != "done"; i++ {
+		for i := 0; i < 6 && t.getStatus() != "done"; i++ {
 			t.mu.Lock()
 			if t.status == "blocked" {
 				close(t.release)
